@@ -1014,3 +1014,30 @@ def r14(k: Kit) -> None:
     from .shared import water_mark_table
     rep.rule('C09.R18', 'drain() returns once everything was sent (= C08.R9 water mark table): with a low-water mark of 0 the writer is resumed when the buffer is empty')
     water_mark_table(k, 'C09.R18')
+    rep.rule('C09.R19', 'forward_tunneled_session: the process factory it '
+             'hands to SSHServerProcess ends the downstream session on '
+             'every path - process.exit() / exit_with_signal() / close() '
+             'after the upstream process closed; a factory that just '
+             'returns leaves the client without exit status and CLOSE '
+             '(run() / wait_closed() hang although the upstream channel is '
+             'gone)')
+    _ft = k.func('connection.SSHServerConnection.forward_tunneled_session')
+    _inner = [x for x in ast.walk(_ft.node) if isinstance(
+        x, ast.AsyncFunctionDef) and x is not _ft.node]
+    rep.floor('C09.R19', 'process factories', len(_inner), 1)
+    from ..cfg import CFG as _CFG
+    for _fn in _inner:
+        _g2 = _CFG(_fn, k.idx.exc_is_subclass)
+        _ends = [n.id for n in _g2.nodes for c in _g2.calls_at(n)
+                 if isinstance(c.func, ast.Attribute) and c.func.attr in (
+                     'exit', 'exit_with_signal', 'close') and
+                 dotted(c.func.value) == 'process']
+        _w = _g2.path(_g2.entry, _g2.exit, blocked_nodes=_ends,
+                      follow_exc=False)
+        rep.check(bool(_ends) and _w is None, 'C09.R19',
+                  key(_ft, 'downstream session is ended'),
+                  'process.exit / exit_with_signal / close on every path',
+                  'session_requested() returning a connection to server '
+                  'B: the client gets B\'s output and EOF, never an exit '
+                  'status or CLOSE', _ft.loc(_fn),
+                  _g2.describe_path(_w) if _w else None)
